@@ -9,11 +9,12 @@ from lib.core import existing_modules
 from props import c12
 
 ID = "C06"
-LEVEL = "other"
+LEVEL = "proof"
 LEAN_MODULES = ["Sonic.Props.C06", "Sonic.Props.C09", "Sonic.Props.C08"]
 REQUIRED_THEOREMS = ["Sonic.Props.C06." + n for n in ["C06_stack_grow", "C06_write_bounds", "C06_no_overrun", "C06_serialize_eq_render", "C06_nonfinite",
                                                          "C06_quote_decode", "C06_scan_uint", "C06_scan_sint", "C06_render_valid", "C06_roundtrip",
-                                                         "C06_roundtrip_noReals", "C06_reserialize", "C06_end_to_end"]]
+                                                         "C06_roundtrip_noReals", "C06_reserialize", "C06_end_to_end", "C06_ftoaModel_facts", "C06_cfgOK_model",
+                                                         "C06_render_valid_model", "C06_roundtrip_model", "C06_reserialize_model", "C06_end_to_end_model"]]
 CONFIGS = [("avx2", "prod"), ("sse", "prod"), ("avx2", "san"), ("sse", "san")]
 CONFIGS_THOROUGH = CONFIGS + [("dyn", "prod")]
 RULE = ("documents: generator output (empty/nested containers, scalar roots of every kind, duplicate keys, numbers of every kind, strings with "
@@ -28,12 +29,14 @@ EXPLANATION = ("For each document: the implementation's dump must be accepted by
                "and must agree with the compiled code on bytes, Size() and Capacity(). Theorems proved are listed in the evidence.")
 ASSUMPTIONS = ["container sizes < 2^31 (uint32_t counters)", "realloc provides the requested number of bytes"]
 TRUSTED = ["Spec.Json.parse / Spec.Render as oracles (compiled Lean evaluation)"]
-LEVEL_TEXT = ("Machine-checked proof (Lean 4) of the serializer machine for every document and every write-buffer state: never overruns the "
-              "buffer (C06_no_overrun), equals the recursive printer (C06_serialize_eq_render), non-finite => error 12 and empty Dump, output "
-              "accepted by the RFC 8259 spec and parsing back to the same value, re-serialisation identical (C06_end_to_end). The clauses that "
-              "involve doubles are conditional on the named hypothesis FtoaFacts about F64toa (size <= 25 / extent <= 32 / read-back), which "
-              "C07 proves in part and validates per input - hence level 'other' rather than 'proof'; documents without doubles are "
-              "unconditional (C06_roundtrip_noReals).")
+LEVEL_TEXT = ("Machine-checked proof (Lean 4) of the serializer machine for every document (arbitrary string bytes, every finite double, every "
+              "64-bit integer) and every write-buffer state: never overruns the buffer (C06_no_overrun), equals the recursive printer "
+              "(C06_serialize_eq_render), non-finite => error 12 and empty Dump (C06_nonfinite), and C06_end_to_end_model: output accepted by "
+              "the RFC 8259 spec, parses back to the same value with number kinds kept, re-serialisation identical. The facts about F64toa that "
+              "used to be a named hypothesis are now discharged for the literal model (C06_ftoaModel_facts, from C07_schubfach + the link to "
+              "the exact reference reader + the reader equivalence scan_of_parseDec). The model is tied to the compiled code by the "
+              "correspondence run (bytes, Size(), Capacity(), parse-back through the library, re-serialisation) on parsed and API-built "
+              "documents including non-finite doubles.")
 LEVEL_NOTE = "Trusted: Lean kernel; standard axioms; compiled Lean evaluation of the specs; harness."
 TECHNIQUE = "Lean 4 theorems (write-buffer bookkeeping, machine = recursive printer) + executable spec oracles; differential correspondence"
 
